@@ -5,7 +5,6 @@ import (
 	"fmt"
 	"sort"
 	"strings"
-	"time"
 
 	"verif/engine/core"
 	"verif/engine/explore"
@@ -147,7 +146,7 @@ func runC03(ctx *core.Ctx, pool *par.Pool) {
 			{pagedrv.CfgA, seedFrag, seedDepth - 1}, {pagedrv.CfgC, seedWAL, seedDepth - 1}}
 	}
 	for _, run := range runs {
-		ctx.Share(ctx.Budget() * 7 / 10 / time.Duration(len(runs)))
+		ctx.Share(ctx.FairShare(len(runs), 0.7))
 		cfg := run.Cfg
 		st := xstate.BFS(ctx, pool, xstate.Spec{Cfg: cfg, Seed: run.Seed.Ops, Alphabet: c03Alphabet(cfg, ctx.Quick()), MaxDepth: run.Depth,
 			OnTransition: func(from *xstate.Node, s *xstate.Succ, isNew bool, _ *xstate.Node) {
